@@ -545,6 +545,12 @@ func (parser *Parser) ParseExpression(depth int) (res Sexp, err error) {
 				}
 			}
 		}
+		if tok.str == "nil" {
+			// nil is data, like true and false: (read "nil") used to give
+			// a symbol named nil, which is not equal to nil, so printed
+			// data holding nil did not read back as itself.
+			return SexpNull, nil
+		}
 		return env.MakeSymbol(tok.str), nil
 	case TokenSymbolColon:
 		sym := env.MakeSymbol(tok.str)
